@@ -241,16 +241,24 @@ class SymNode:
             return SymName(self.ident)
         if attr == "value" and bool(SB(self.kind == K[real_ast.Constant])):
             return SymConstVal(self.const)
+        if attr == "_fields":
+            for c in ALL_KINDS:
+                if bool(SB(self.kind == K[c])):
+                    return c._fields
+            raise AttributeError(attr)
         if attr in FID:
-            # the chain child if it hangs from this field, else the minimal fill-in of that field (kind-dependent: fork)
-            if self.child is not None and bool(SB(self.child.field == FID[attr])):
-                return self.child
+            # kind-dependent (fork): the field of a node of that kind, holding the chain child if it hangs from this field
+            # (inside a list for list-valued fields, as in the real tree) and the minimal fill-in otherwise
             for c in ALL_KINDS:
                 if attr in c._fields and bool(SB(self.kind == K[c])):
-                    v = getattr(build(c), attr)
-                    if isinstance(v, list):
-                        return v
-                    return v
+                    hangs = self.child is not None and any(f == attr for f, _ in child_fields(c)) and bool(SB(self.child.field == FID[attr]))
+                    if hangs:
+                        mark = _nm("__MARK__")
+                        v = getattr(build(c, child=mark, field=attr), attr)
+                        if isinstance(v, list):
+                            return [self.child if x is mark else x for x in v]
+                        return self.child
+                    return getattr(build(c), attr)
             raise AttributeError(attr)
         raise AttributeError(attr)
 
@@ -332,6 +340,27 @@ class AstShim:
 
     def fix_missing_locations(self, x):
         return x
+
+    def iter_fields(self, node):
+        if not isinstance(node, SymNode):
+            yield from real_ast.iter_fields(node)
+            return
+        for f in node._fields:
+            try:
+                yield f, getattr(node, f)
+            except AttributeError:
+                pass
+
+    def iter_child_nodes(self, node):
+        # for traversals written by hand instead of ast.walk: the children of a symbolic node are its chain child (under the
+        # field it hangs from) and the concrete fill-ins of the other fields
+        for name, field in self.iter_fields(node):
+            if isinstance(field, (real_ast.AST, SymNode)):
+                yield field
+            elif isinstance(field, list):
+                for item in field:
+                    if isinstance(item, (real_ast.AST, SymNode)):
+                        yield item
 
     def walk(self, root):
         # chain nodes first, then, per chain node, its mandatory fill-ins: their acceptance by the real per-node code was
